@@ -16,6 +16,20 @@ Monitors (postconditions on the real functions, oracle = vmon/ref/matspace.py + 
                                        finds (sampling + alternating eigenvector sweeps)
 The ghost labels live in a per-process registry keyed by the content digest of the array that is handed over; a label is
 only registered after the reference has verified it (orthonormal basis, planted element inside the span, its rank).
+
+Workloads: random (9 class/dtype/field combinations x dims 2..5 x dependent generators; planted subspaces behind a random
+invertible mixing, real and complex, hierarchy k=1..2 quick / 1..3 thorough, control subspaces of the same size; random
+matrices of size 2..8), hostile (orthonormal bases rotated such that the planted element has a coefficient 1e-2..1e-6 on the
+last basis vector), corner (unit-matrix generators, explicit two-dimensional families), realistic (the library's own
+examples and completely-entangled-subspace constructions, the zero-error example whose complement contains |L><R|),
+repo-tests (thorough: the repository's matrix_space tests under the contracts).
+
+Defects found with this module and since repaired in /repo (their reversals are mutants): defect 16 (rank-one detector
+compared its bound with 1 without tolerance) and the LU-pivot regularity test of both hierarchies (false certificates when
+the planted element has a small coefficient on the last basis vector; keys .../false-certificate/k<k>/small-coefficient).
+Observed, outside the statement: the Gell-Mann based classes return norm sqrt(2) (R_cT: 2) although the docstring says
+Frobenius norm 1; detect_real_matrix_subspace_rank_one builds its projector from that basis, so for real *symmetric*
+subspaces its bound is twice the projector bound (still an upper bound: never a false certificate, but it never certifies).
 """
 import contextlib
 import importlib.util
@@ -35,7 +49,10 @@ RULE = ('cases: (a) basis: one call of get_matrix_orthogonal_basis on generators
         '(b) planted: one certificate call on an orthonormal basis of a subspace with a planted rank-p element / real rank-one '
         'element / product vector hidden by a random invertible mixing; non-trivial when a generic subspace of the same '
         'dimension has no such element (N <= (dA-p)(dB-p), resp. N <= D - sum(d_i) + n - 1), i.e. the answer is not forced '
-        'by the size; control subspaces of the same size are run to measure how often the certificate is actually issued; '
+        'by the size; control subspaces of the same size are run to measure how often the certificate is actually issued; the planted '
+        'cases come from a general invertible mixing + orthonormalisation + random rotation (random), from bases rotated such that the '
+        'planted element has a coefficient 1e-2..1e-6 on the last basis vector (hostile: this exposed the LU-pivot defect) and from '
+        'hand-written two-dimensional families (corner); '
         '(c) numerical range: one call on a random complex matrix of size 2..8 (non-normal, real, Hermitian, normal, '
         'degenerate normal, nilpotent, unitary), non-trivial when the matrix is not a multiple of the identity; '
         '(d) bipartite range: one call on a random symmetric real matrix / subspace projector, non-trivial when the matrix '
@@ -53,7 +70,11 @@ ASSUMPTIONS = [
     'get_matrix_numerical_range(A, n) returns the point of direction t_i = linspace(0, 2 pi, n)[i], maximising Re(e^{i t_i} z) '
     'over W(A) (convention read from the code: the docstring fixes none); membership in W(A) is checked independently of it',
     'get_real_bipartite_numerical_range is judged for method="eigen" only (method="rotation" is documented as possibly wrong)',
-    'tolerances: 1e-9 relative to the operator norm for numerical ranges and bounds, 1e-9 for orthogonality / norms, 1e-8 for span residuals',
+    'tolerances: 1e-9 relative to the operator norm for numerical ranges and bounds; 1e-9 (relative to the squared norm) for orthogonality and '
+    'norm spread; span residuals and complement-vs-generator inner products max(1e-10, 1e3*eps*kappa) with kappa the condition number of the '
+    'generators inside their span (observed need: 24*eps*kappa), inconclusive beyond 1e-6',
+    'a ghost label is registered only when the reference finds the handed basis orthonormal to 1e-12 and the planted element inside its '
+    'span to 1e-12 (otherwise the case is inconclusive); "contains" is therefore meant up to 1e-12, far below the 1e-7 thresholds of the certificates',
 ]
 TECHNIQUE = ('postconditions on the real matrix_space functions against an independent numpy reference; ghost-label registry '
              '(content digest -> verified planted element) for the one-sided certificates; control runs to measure certificate reach')
@@ -70,8 +91,10 @@ DECIDING = ['numqi.matrix_space._misc.get_matrix_orthogonal_basis', 'numqi.matri
             'bipartite_range/bound-vs-product']
 
 TOL_ORTH = 1e-9
-TOL_SPAN = 1e-8
+TOL_SPAN_FLOOR = 1e-10
 TOL_RANGE = 1e-9
+SMALL_COEFF = 0.02   # planted element has a component below this along one handed basis vector: 'graded' basis
+GRADED_EPS = (1e-2, 1e-3, 3e-4, 1e-4, 1e-6)
 
 REG = {}  # content digest -> verified ghost label
 
@@ -85,25 +108,30 @@ def shards(tier, seed):
         ret.append({'name': f'basis-{i}', 'kind': 'basis', 'part': i, 'nparts': nb})
     ret.append({'name': 'realistic', 'kind': 'realistic'})
     for i in range(1 if q else 4):
-        ret.append({'name': f'rank-one-{i}', 'kind': 'rank-one', 'n': 260 if q else 700})
+        ret.append({'name': f'rank-one-{i}', 'kind': 'rank-one', 'n': 260 if q else 1400})
     for i in range(1 if q else 2):
-        ret.append({'name': f'bipartite-{i}', 'kind': 'bipartite', 'n': 120 if q else 500})
+        ret.append({'name': f'bipartite-{i}', 'kind': 'bipartite', 'n': 120 if q else 1000})
     for i in range(1 if q else 3):
-        ret.append({'name': f'hier-k1-{i}', 'kind': 'hier', 'k': 1, 'n': 110 if q else 320, 'max_index': 500 if q else 900})
-    for i in range(2 if q else 6):
-        ret.append({'name': f'hier-k2-{i}', 'kind': 'hier', 'k': 2, 'n': 45 if q else 130, 'max_index': 300 if q else 700})
+        ret.append({'name': f'hier-k1-{i}', 'kind': 'hier', 'k': 1, 'n': 200 if q else 800, 'max_index': 600 if q else 1000})
+    for i in range(3 if q else 6):
+        ret.append({'name': f'hier-k2-{i}', 'kind': 'hier', 'k': 2, 'n': 50 if q else 280, 'max_index': 300 if q else 800})
     if not q:
         for i in range(8):
-            ret.append({'name': f'hier-k3-{i}', 'kind': 'hier', 'k': 3, 'n': 60, 'max_index': 500})
+            ret.append({'name': f'hier-k3-{i}', 'kind': 'hier', 'k': 3, 'n': 110, 'max_index': 600})
     for i in range(1 if q else 4):
-        ret.append({'name': f'tripartite-{i}', 'kind': 'tripartite', 'n': 80 if q else 220, 'kmax': 2 if q else 3,
-                    'max_index': 300 if q else 600})
+        ret.append({'name': f'tripartite-{i}', 'kind': 'tripartite', 'n': 110 if q else 400, 'kmax': 2 if q else 3,
+                    'max_index': 400 if q else 700})
     for i in range(1 if q else 3):
-        ret.append({'name': f'numrange-{i}', 'kind': 'numrange', 'n': 150 if q else 500})
+        ret.append({'name': f'numrange-{i}', 'kind': 'numrange', 'n': 150 if q else 1200})
     if not q:
         ret.append({'name': 'repo-tests', 'kind': 'repo-tests'})
     for s in ret:
-        s.setdefault('budget_s', 45 if q else 400)
+        # safety net only (the counts above are sized to finish well inside it on an idle 16-core machine); a shard that runs out of
+        # budget stops generating random cases and records extra['truncated']; directed / corner cases always run first
+        s.setdefault('budget_s', 45 if q else 240)
+    # heavy shards first, so that they do not form the tail of the run
+    weight = {'hier': 3, 'tripartite': 4, 'repo-tests': 2}
+    ret.sort(key=lambda s: -(weight.get(s['kind'], 0) * 10 + s.get('k', 0)))
     return ret
 
 
@@ -210,14 +238,21 @@ def install(ctx, numqi):
         _worst(ctx, 'basis_worst_offdiag', cls, off)
         _worst(ctx, 'basis_worst_norm_spread', cls, spread)
         ctx.extra.setdefault('basis_norm_observed', {})[cls] = round(float(np.sqrt(nrm2.max())), 12)
-        # span equality, both ways
+        # span equality, both ways; tolerance C*eps*kappa (kappa = condition of the generators within their span), DESIGN section 3
+        sv = rm.singular_values(G)
+        kappa = float(sv[0] / sv[rank - 1])
+        tol_span = max(TOL_SPAN_FLOOR, 1e3 * 2.3e-16 * kappa)
+        if tol_span > 1e-6:
+            ctx.inconclusive('basis/generators-ill-conditioned')
+            return
         r1 = rm.residual_onto(G, B)
         r2 = rm.residual_onto(B, G)
-        ctx.check(r1 <= TOL_SPAN, f'basis/span-mismatch/{cls}', 'a basis element lies outside the span of the generators',
-                  lambda: wit(residual=r1), point='basis/span')
-        ctx.check(r2 <= TOL_SPAN, f'basis/span-not-covered/{cls}', 'a generator lies outside the span of the returned basis',
-                  lambda: wit(residual=r2))
+        ctx.check(r1 <= tol_span, f'basis/span-mismatch/{cls}', 'a basis element lies outside the span of the generators',
+                  lambda: wit(residual=r1, tol=tol_span, kappa=kappa), point='basis/span')
+        ctx.check(r2 <= tol_span, f'basis/span-not-covered/{cls}', 'a generator lies outside the span of the returned basis',
+                  lambda: wit(residual=r2, tol=tol_span, kappa=kappa))
         _worst(ctx, 'basis_worst_span_residual', cls, max(r1, r2))
+        _worst(ctx, 'basis_worst_span_residual/(eps*kappa)', cls, max(r1, r2) / (2.3e-16 * kappa))
         # complement
         amb = rm.ambient_dim(cls, m, n)
         ctx.check(B.shape[0] + O.shape[0] == amb, f'basis/dim+codim/{cls}', 'dim + codim differs from the ambient dimension of the class',
@@ -234,8 +269,8 @@ def install(ctx, numqi):
                 cg = float(np.abs(rm.gram(Gn, On)).max())
                 ctx.check(cb <= TOL_ORTH, f'complement/not-orthogonal-to-basis/{cls}', 'complement is not orthogonal to the basis in the inner product of the class',
                           lambda: wit(max_inner=cb), point='complement/orthogonal')
-                ctx.check(cg <= TOL_SPAN, f'complement/not-orthogonal-to-input/{cls}', 'complement is not orthogonal to the generators',
-                          lambda: wit(max_inner=cg))
+                ctx.check(cg <= tol_span, f'complement/not-orthogonal-to-input/{cls}', 'complement is not orthogonal to the generators',
+                          lambda: wit(max_inner=cg, tol=tol_span, kappa=kappa))
                 rk, _ = rm.rank_decision(On)
                 ctx.check(rk == O.shape[0], f'complement/dependent/{cls}', 'complement elements are linearly dependent (codim over-counted)',
                           lambda: wit(rank=rk))
@@ -265,13 +300,27 @@ def install(ctx, numqi):
         grp = f"hierarchy_planted/k{k}/{'complex' if lab['complex'] else 'real'}"
         _stat(ctx, grp, 'cases')
         _stat(ctx, grp, 'false_certificate' if res else 'non_certificate')
-        ctx.check(not res, f'hierarchy/false-certificate/k{k}',
+        small = lab['min_coeff'] < SMALL_COEFF
+        _stat(ctx, grp, 'cases_with_small_coefficient', int(small))
+
+        def wit():
+            w = {'rank_arg': rank, 'hierarchy_k': k, 'planted_rank': lab['rank'], 'shape': list(space.shape), 'dtype': str(space.dtype),
+                 'membership_residual': lab['residual'], 'planted_singular_values': lab['singular'],
+                 'smallest_coefficient_of_planted_element_in_basis': lab['min_coeff'], 'basis': space, 'planted_element': lab['element']}
+            try:  # diagnosis: is the linear system singular (as theory says) and only the pivot test misreads it?
+                import scipy.linalg
+                _, G = c.func(space, rank=rank, hierarchy_k=k, return_info=True)
+                w['gram_smallest_eigenvalues'] = np.linalg.eigvalsh(G)[:3]
+                w['gram_smallest_lu_pivots'] = np.sort(np.abs(np.diag(scipy.linalg.lu(G)[2])))[:3]
+            except Exception as e:  # pragma: no cover
+                w['diagnosis_failed'] = repr(e)[:200]
+            return w
+
+        ctx.check(not res, f'hierarchy/false-certificate/k{k}' + ('/small-coefficient' if small else ''),
                   'has_rank_hierarchical_method returned True (certificate: every non-zero element has rank >= rank) for an orthonormal basis '
-                  'of a subspace that contains a planted non-zero element of lower rank',
-                  lambda: {'rank_arg': rank, 'hierarchy_k': k, 'planted_rank': lab['rank'], 'shape': list(space.shape), 'dtype': str(space.dtype),
-                           'membership_residual': lab['residual'], 'planted_singular_values': lab['singular'], 'basis': space,
-                           'planted_element': lab['element']},
-                  point='planted/hierarchy')
+                  'of a subspace that contains a planted non-zero element of lower rank'
+                  + (' (the planted element has a coefficient < %g on one of the handed basis vectors)' % SMALL_COEFF if small else ''),
+                  wit, point='planted/hierarchy')
 
     ctx.attach(ms._hierarchy, 'has_rank_hierarchical_method', post=post_hier)
 
@@ -294,10 +343,13 @@ def install(ctx, numqi):
         grp = f"tripartite_planted/k{k}/{'complex' if lab['complex'] else 'real'}"
         _stat(ctx, grp, 'cases')
         _stat(ctx, grp, 'false_certificate' if res else 'non_certificate')
-        ctx.check(not res, f'tripartite/false-certificate/k{k}',
-                  'is_ABC_completely_entangled_subspace returned True for an orthonormal basis of a subspace that contains a planted product vector',
+        small = lab['min_coeff'] < SMALL_COEFF
+        _stat(ctx, grp, 'cases_with_small_coefficient', int(small))
+        ctx.check(not res, f'tripartite/false-certificate/k{k}' + ('/small-coefficient' if small else ''),
+                  'is_ABC_completely_entangled_subspace returned True for an orthonormal basis of a subspace that contains a planted product vector'
+                  + (' (the planted vector has a coefficient < %g on one of the handed basis vectors)' % SMALL_COEFF if small else ''),
                   lambda: {'hierarchy_k': k, 'shape': list(space.shape), 'dtype': str(space.dtype), 'membership_residual': lab['residual'],
-                           'basis': space, 'factors': lab['factors']},
+                           'smallest_coefficient_of_planted_vector_in_basis': lab['min_coeff'], 'basis': space, 'factors': lab['factors']},
                   point='planted/tripartite')
 
     ctx.attach(ms._hierarchy, 'is_ABC_completely_entangled_subspace', post=post_abc)
@@ -424,7 +476,8 @@ def label_lowrank(ctx, basis, planted, cplx):
     if od > 1e-12 or res > 1e-12:
         ctx.inconclusive('planted/label-not-verified')
         return None
-    lab = {'kind': 'lowrank', 'rank': rk, 'complex': bool(cplx), 'element': planted, 'residual': res, 'singular': s, 'orthonormality': od}
+    lab = {'kind': 'lowrank', 'rank': rk, 'complex': bool(cplx), 'element': planted, 'residual': res, 'singular': s, 'orthonormality': od,
+           'min_coeff': float(rm.coefficient_profile(basis, planted).min())}
     register(basis, lab)
     return lab
 
@@ -436,7 +489,7 @@ def label_product(ctx, basis, planted, factors, cplx):
         ctx.inconclusive('planted/label-not-verified')
         return None
     lab = {'kind': 'product', 'complex': bool(cplx), 'element': planted, 'factors': [np.asarray(f) for f in factors], 'residual': res,
-           'orthonormality': od}
+           'orthonormality': od, 'min_coeff': float(rm.coefficient_profile(basis, planted).min())}
     register(basis, lab)
     return lab
 
@@ -451,7 +504,7 @@ def run_basis(ctx, numqi, shard):
     rng = ctx.rng
     quick = ctx.tier == 'quick'
     ctx.workload('random')
-    reps = 1 if quick else 8
+    reps = 1 if quick else 20
     todo = []
     for ci, combo in enumerate(rm.COMBOS):
         square = combo[0] in ('R_T', 'C_T', 'C_H', 'R_cT')
@@ -690,6 +743,62 @@ def run_hier(ctx, numqi, shard):
     ms = numqi.matrix_space
     rng = ctx.rng
     k = shard['k']
+    # hostile: the same kind of subspace, but the orthonormal basis is rotated such that the planted element has a very small
+    # component along the LAST basis vector (a random rotation does this with small probability; here it is forced)
+    ctx.workload('hostile')
+    for (dA, dB, p, N) in [(3, 3, 1, 3), (4, 4, 1, 6), (4, 4, 2, 3), (3, 5, 1, 4)]:
+        if n_index(N, p + k) > shard['max_index'] or ctx.time_left() < 10:
+            continue
+        for eps in GRADED_EPS:
+            cplx = bool(rng.integers(2))
+            u = rm.random_rotation(rng, dA, cplx)[:, :p]
+            v = rm.random_rotation(rng, dB, cplx)[:p]
+            planted = u @ v
+            cf = rm._randn(rng, cplx, N)
+            cf[-1] = 0
+            cf = cf / np.linalg.norm(cf) * np.sqrt(1 - eps**2)
+            cf[-1] = eps
+            basis = np.ascontiguousarray(rm.basis_with_coefficients(rng, planted, N, cplx, cf))
+            desc = {'op': 'planted-low-rank/graded-basis', 'dA': dA, 'dB': dB, 'planted_rank': p, 'N': N, 'complex': cplx, 'k': k,
+                    'coefficient_on_last_basis_vector': eps}
+            ctx.set_case(desc)
+            lab = label_lowrank(ctx, basis, planted, cplx)
+            if lab is None or lab['rank'] != p:
+                continue
+            ctx.case('planted-low-rank/graded', basis, p + 1, k, nontrivial=True)
+            with ctx.guard('hierarchy'):
+                ms.has_rank_hierarchical_method(basis, rank=p + 1, hierarchy_k=k)
+    ctx.workload('corner')
+    if shard['name'].endswith('-0'):
+        # explicit two-dimensional family: span{E00, (E11+E22)/sqrt2} handed over rotated by a small angle
+        P0 = np.zeros((3, 3))
+        P0[0, 0] = 1
+        Q0 = np.diag([0, 1, 1]) / np.sqrt(2)
+        for eps in (1e-4, 1e-5, 1e-6):
+            sp = np.stack([np.cos(eps) * P0 + np.sin(eps) * Q0, -np.sin(eps) * P0 + np.cos(eps) * Q0])
+            ctx.set_case({'op': 'corner-low-rank/rotated-pair', 'basis': 'cos(e)E00+sin(e)(E11+E22)/sqrt2, -sin(e)E00+cos(e)(E11+E22)/sqrt2', 'e': eps, 'k': k})
+            if label_lowrank(ctx, sp, P0, False) is None:
+                continue
+            ctx.case('corner-low-rank/rotated-pair', sp, k, nontrivial=True)
+            with ctx.guard('hierarchy'):
+                ms.has_rank_hierarchical_method(sp, rank=2, hierarchy_k=k)
+        for dA, dB in [(2, 2), (3, 3), (3, 4)]:
+            for p in range(1, min(dA, dB)):
+                E = np.zeros((dA, dB))
+                E[np.arange(p), np.arange(p)] = 1 / np.sqrt(p)
+                F = np.zeros((dA, dB))
+                F[dA - 1, dB - 1] = 1.0
+                for sp in ([E], [E, F]):
+                    sp = np.ascontiguousarray(np.stack(sp))
+                    if rm.orthonormality_defect(sp) > 1e-12:
+                        continue
+                    ctx.set_case({'op': 'corner-low-rank', 'dA': dA, 'dB': dB, 'planted_rank': p, 'N': len(sp), 'k': k})
+                    lab = label_lowrank(ctx, sp, E, False)
+                    if lab is None:
+                        continue
+                    ctx.case('corner-low-rank', sp, p + 1, k, nontrivial=True)
+                    with ctx.guard('hierarchy'):
+                        ms.has_rank_hierarchical_method(sp, rank=p + 1, hierarchy_k=k)
     ctx.workload('random')
     cfgs = hier_configs(k, shard['max_index'])
     ctx.extra['configs'] = len(cfgs)
@@ -709,7 +818,9 @@ def run_hier(ctx, numqi, shard):
                 'singular_spread': spread}
         ctx.set_case(desc)
         lab = label_lowrank(ctx, basis, planted, cplx)
-        if lab is None or lab['rank'] != p:
+        if lab is None:
+            continue
+        if lab['rank'] != p:
             ctx.inconclusive('planted/rank-not-as-intended')
             continue
         ranks = [p + 1]
@@ -731,30 +842,63 @@ def run_hier(ctx, numqi, shard):
             with ctx.guard('hierarchy'):
                 res = ms.has_rank_hierarchical_method(ctrl, rank=p + 1, hierarchy_k=k)
             _stat(ctx, 'hierarchy_control', f'k{k}/' + ('certified' if res else 'not-certified'))
-    ctx.workload('corner')
-    if shard['name'].endswith('-0'):
-        for dA, dB in [(2, 2), (3, 3), (3, 4)]:
-            for p in range(1, min(dA, dB)):
-                E = np.zeros((dA, dB))
-                E[np.arange(p), np.arange(p)] = 1 / np.sqrt(p)
-                F = np.zeros((dA, dB))
-                F[dA - 1, dB - 1] = 1.0
-                for sp in ([E], [E, F]):
-                    sp = np.ascontiguousarray(np.stack(sp))
-                    if rm.orthonormality_defect(sp) > 1e-12:
-                        continue
-                    ctx.set_case({'op': 'corner-low-rank', 'dA': dA, 'dB': dB, 'planted_rank': p, 'N': len(sp), 'k': k})
-                    lab = label_lowrank(ctx, sp, E, False)
-                    if lab is None:
-                        continue
-                    ctx.case('corner-low-rank', sp, p + 1, k, nontrivial=True)
-                    with ctx.guard('hierarchy'):
-                        ms.has_rank_hierarchical_method(sp, rank=p + 1, hierarchy_k=k)
 
 
 def run_tripartite(ctx, numqi, shard):
     ms = numqi.matrix_space
     rng = ctx.rng
+    ctx.workload('hostile')
+    for dims, N in [((2, 2, 2), 3), ((2, 2, 3), 5), ((3, 3, 3), 8)]:
+        for k in range(1, shard['kmax'] + 1):
+            if n_index(N, 1 + k) > shard['max_index'] or ctx.time_left() < 10:
+                continue
+            for eps in GRADED_EPS:
+                cplx = bool(rng.integers(2))
+                vecs = [rm._randn(rng, cplx, d) for d in dims]
+                vecs = [x / np.linalg.norm(x) for x in vecs]
+                planted = np.multiply.outer(np.multiply.outer(vecs[0], vecs[1]), vecs[2])
+                cf = rm._randn(rng, cplx, N)
+                cf[-1] = 0
+                cf = cf / np.linalg.norm(cf) * np.sqrt(1 - eps**2)
+                cf[-1] = eps
+                basis = np.ascontiguousarray(rm.basis_with_coefficients(rng, planted, N, cplx, cf))
+                ctx.set_case({'op': 'planted-product/graded-basis', 'dims': list(dims), 'N': N, 'complex': cplx, 'k': k,
+                              'coefficient_on_last_basis_vector': eps})
+                if label_product(ctx, basis, planted, vecs, cplx) is None:
+                    continue
+                ctx.case('planted-product/graded', basis, k, nontrivial=True)
+                with ctx.guard('tripartite'):
+                    ms.is_ABC_completely_entangled_subspace(list(basis), hierarchy_k=k)
+    ctx.workload('corner')
+    # explicit two-dimensional family: span{|000>, (|011>+|101>+|110>)/sqrt3} handed over rotated by a small angle
+    P0 = np.zeros((2, 2, 2))
+    P0[0, 0, 0] = 1
+    Q0 = np.zeros((2, 2, 2))
+    Q0[0, 1, 1] = Q0[1, 0, 1] = Q0[1, 1, 0] = 1 / np.sqrt(3)
+    for eps in (1e-4, 1e-5, 1e-6):
+        sp = np.stack([np.cos(eps) * P0 + np.sin(eps) * Q0, -np.sin(eps) * P0 + np.cos(eps) * Q0])
+        ctx.set_case({'op': 'corner-product/rotated-pair', 'basis': 'cos(e)|000>+sin(e)W, -sin(e)|000>+cos(e)W, W=(|011>+|101>+|110>)/sqrt3', 'e': eps})
+        if label_product(ctx, sp, P0, [np.eye(2)[0]] * 3, False) is None:
+            continue
+        ctx.case('corner-product/rotated-pair', sp, nontrivial=True)
+        for k in (1, 2, 3):
+            with ctx.guard('tripartite'):
+                ms.is_ABC_completely_entangled_subspace(list(sp), hierarchy_k=k)
+    for dims in [(2, 2, 2), (2, 2, 3)]:
+        e = np.zeros(dims)
+        e[0, 0, 0] = 1
+        f = np.zeros(dims)
+        f[1, 1, 1] = 1
+        for sp in ([e], [e, f], [(e + f) / np.sqrt(2), (e - f) / np.sqrt(2)]):
+            sp = np.ascontiguousarray(np.stack(sp))
+            ctx.set_case({'op': 'corner-product', 'dims': list(dims), 'N': len(sp)})
+            fac = [np.eye(d)[0] for d in dims]
+            if label_product(ctx, sp, e, fac, False) is None:
+                continue
+            ctx.case('corner-product', sp, nontrivial=True)
+            for k in range(1, shard['kmax'] + 1):
+                with ctx.guard('tripartite'):
+                    ms.is_ABC_completely_entangled_subspace(list(sp), hierarchy_k=k)
     ctx.workload('random')
     dims_all = [(2, 2, 2), (2, 2, 3), (2, 3, 2), (3, 2, 2), (2, 3, 3), (3, 2, 3), (2, 2, 4), (3, 3, 3), (2, 3, 4), (4, 2, 2)]
     control_done = {}
@@ -793,22 +937,6 @@ def run_tripartite(ctx, numqi, shard):
             with ctx.guard('tripartite'):
                 res = ms.is_ABC_completely_entangled_subspace(list(ctrl), hierarchy_k=k)
             _stat(ctx, 'tripartite_control', f'k{k}/' + ('certified' if res else 'not-certified'))
-    ctx.workload('corner')
-    for dims in [(2, 2, 2), (2, 2, 3)]:
-        e = np.zeros(dims)
-        e[0, 0, 0] = 1
-        f = np.zeros(dims)
-        f[1, 1, 1] = 1
-        for sp in ([e], [e, f], [(e + f) / np.sqrt(2), (e - f) / np.sqrt(2)]):
-            sp = np.ascontiguousarray(np.stack(sp))
-            ctx.set_case({'op': 'corner-product', 'dims': list(dims), 'N': len(sp)})
-            fac = [np.eye(d)[0] for d in dims]
-            if label_product(ctx, sp, e, fac, False) is None:
-                continue
-            ctx.case('corner-product', sp, nontrivial=True)
-            for k in range(1, shard['kmax'] + 1):
-                with ctx.guard('tripartite'):
-                    ms.is_ABC_completely_entangled_subspace(list(sp), hierarchy_k=k)
 
 
 def run_numrange(ctx, numqi, shard):
